@@ -14,6 +14,7 @@ import (
 	"os"
 	"path/filepath"
 	"runtime"
+	"runtime/debug"
 	"sort"
 	"strconv"
 	"strings"
@@ -459,7 +460,47 @@ func watched[C any](id, test string, c C, run func() Outcome) Outcome {
 	}
 	timer := time.AfterFunc(d, func() { hang(id, test, c) })
 	defer timer.Stop()
+	return guardLib(run)
+}
+
+// guardLib runs one case. A panic raised by the library itself while the case runs (in the goroutine that runs the
+// case) is a result of the case, not a crash of the test binary: no listed property holds on a history whose calls do
+// not return. A panic raised by harness code stays a harness problem (it is re-raised).
+func guardLib(run func() Outcome) (out Outcome) {
+	defer func() {
+		if r := recover(); r != nil {
+			if where := LibPanicOrigin(string(debug.Stack())); where != "" {
+				out = Viol("library-panic", "the library panicked during the case: %v (in %s)", r, where)
+				return
+			}
+			panic(r)
+		}
+	}()
 	return run()
+}
+
+// LibPanicOrigin returns the library function that raised the panic whose stack this is ("" when the innermost frame
+// below the panic, runtime and standard-library helpers aside, is not library code).
+func LibPanicOrigin(stack string) string {
+	const lib = "github.com/platinummonkey/go-concurrency-limits/"
+	seenPanic := false
+	for _, l := range strings.Split(stack, "\n") {
+		if strings.HasPrefix(l, "panic(") {
+			seenPanic = true
+			continue
+		}
+		if !seenPanic || strings.HasPrefix(l, "\t") || strings.HasPrefix(l, "runtime.") || strings.HasPrefix(l, "sync.") || strings.HasPrefix(l, "container/") || strings.HasPrefix(l, "math.") {
+			continue
+		}
+		if strings.HasPrefix(l, lib) {
+			if i := strings.LastIndex(l, "("); i > 0 {
+				return strings.TrimPrefix(l[:i], lib)
+			}
+			return l
+		}
+		return ""
+	}
+	return ""
 }
 
 // Watch arms the per-case watchdog for hand-enumerated cases; call the returned func when done.
